@@ -33,7 +33,7 @@ func (node *tagFilterNode) Execute(ctx *ExecutionContext, writer TemplateWriter)
 			if err != nil {
 				return err
 			}
-			if ctx.Autoescape && param.IsString() && !param.safe && !call.paramExpr.FilterApplied("safe") {
+			if ctx.Autoescape && (param.IsString() || param.isStringer()) && !param.safe && !call.paramExpr.FilterApplied("safe") {
 				// The tag's body has been rendered (and escaped) already and the
 				// result is written as is; text coming in through a filter
 				// parameter has to be escaped here or it reaches the output raw.
